@@ -14,5 +14,5 @@ for line in (core.VERIF / "properties.jsonl").read_text().splitlines():
         d = json.loads(line)
         lock[d["id"]] = stamps.current(core.REPO, d["anchors"]["files"])
 head = core.sh(["git", "-C", str(core.REPO), "rev-parse", "HEAD"])[1].strip()
-(core.VERIF / "harness" / "stamps.lock.json").write_text(json.dumps({"repo_head": head, "stamps": lock}, indent=0, sort_keys=True))
+(core.VERIF / "harness" / "stamps.lock.json").write_text(json.dumps({"repo_head": head, "stamps": lock, "package": stamps.package_digests(core.REPO)}, indent=0, sort_keys=True))
 print("stamped", sum(len(f) for p in lock.values() for f in p.values()), "functions at", head)
